@@ -170,7 +170,8 @@ pub fn universe(g: &mut G) -> Universe {
                 // untagged: one variant per JSON kind, so that the variants are mutually
                 // exclusive (schemars emits anyOf; typify models non-exclusive anyOf
                 // imprecisely -- a documented looseness, README "AnyOf": outside the claim)
-                let mut json_kinds: Vec<usize> = vec![0, 1, 2, 3, 4, 5];
+                // (two tuple variants of different arity are exclusive as well: kinds 4 and 6)
+                let mut json_kinds: Vec<usize> = vec![0, 1, 2, 3, 4, 5, 6];
                 g.shuffle(&mut json_kinds);
                 let variants = names
                     .into_iter()
@@ -183,7 +184,8 @@ pub fn universe(g: &mut G) -> Universe {
                                 1 => VKind::Newtype(Ty::Str),
                                 2 => VKind::Newtype(Ty::Int(*g.pick(INTS))),
                                 3 => VKind::Newtype(Ty::Bool),
-                                4 => VKind::Tuple((0..2 + g.below(2)).map(|_| scalar(g)).collect()),
+                                4 => VKind::Tuple((0..2).map(|_| scalar(g)).collect()),
+                                6 => VKind::Tuple((0..3 + g.below(2)).map(|_| scalar(g)).collect()),
                                 _ => VKind::Struct(fields(g, n, idx, 3)),
                             };
                             return Variant { name: name.to_string(), kind, rename: None };
